@@ -191,6 +191,17 @@ def _make(Wint, scale, form):
     A = np.array(Wint, dtype=float) / scale
     if form in ("f64", "f64-tuple", "f64-rev"):
         return A
+    if form == "f64-tiny":
+        # the whole flux network in units of 2^-60 (~1e-18; exact in floating point): fluxes have no natural unit
+        return A * 2.0 ** -60
+    if form == "f64-huge-elsewhere":
+        # two extra states that no source can reach, joined by an edge 2^62 times the unit: the widest source-to-sink
+        # paths, their fluxes and the total outflow of the sources are what they were
+        n = A.shape[0]
+        big = np.zeros((n + 2, n + 2))
+        big[:n, :n] = A
+        big[n, n + 1] = 2.0 ** 62
+        return big
     if form == "f64-F":
         return np.asfortranarray(A)
     if form == "f32":
@@ -226,8 +237,14 @@ def _one_run(Wint, scale, srcs, snks, cfgrun, form):
         rec["raised"] = "%s: %s" % (type(ex).__name__, ex)
         return rec
     rec["paths"] = [[int(x) for x in np.asarray(p).reshape(-1)] for p in ps]
-    rec["fluxes"] = [_project(x, scale) for x in np.asarray(fl, dtype=float).reshape(-1)]
-    rec["after"] = _pmat(A, 1 if form == "i64" else scale)
+    unit = scale * (2.0 ** 60 if form == "f64-tiny" else 1)
+    rec["fluxes"] = [_project(x, unit) for x in np.asarray(fl, dtype=float).reshape(-1)]
+    if form == "f64-huge-elsewhere":
+        n = len(Wint)
+        extra_ok = A[n, n + 1] == 2.0 ** 62 and A[n:, :].sum() == 2.0 ** 62 and not A[:n, n:].any()
+        rec["after"] = _pmat(A[:n, :n], scale) if extra_ok else [[-7]]
+    else:
+        rec["after"] = _pmat(A, 1 if form == "i64" else unit)
     return rec
 
 
@@ -242,6 +259,7 @@ def record_case(job):
             # other containers / dtypes: an identical record is the same trace; a different
             # one is validated on its own
             extra = ("f64-tuple", "f64-rev") if len(srcs) > 1 or len(snks) > 1 else ()
+            extra += (("f64-tiny",), ("f64-huge-elsewhere",), ())[(sum(map(sum, Wint)) + len(srcs)) % 3]
             for form in tuple(job.get("forms", ())) + extra:
                 if form == "i64" and scale != 1:
                     continue
